@@ -70,6 +70,8 @@ def gen_inputs(ctx):
                 subs = alpha_plus
             else:
                 subs = [rng.choice(alpha) for _ in range(2 if q else 6)] + [rng.choice(LOOKALIKE)]
+            if s[p] in "1o":
+                subs = list(subs) + list(LOOKALIKE)        # the look-alikes of exactly this character
             for ch in subs:
                 if ch != s[p]:
                     out.append(("B58DecCheck", T(s[:p] + ch + s[p + 1:]),
